@@ -580,10 +580,22 @@ func canRetryError(err error) bool {
 	return false
 }
 
-func (t *Transport) dialClientConn(ctx context.Context, addr string, singleUse bool) (*ClientConn, error) {
+func (t *Transport) dialClientConn(ctx context.Context, addr string, singleUse bool, plain bool) (*ClientConn, error) {
 	host, _, err := net.SplitHostPort(addr)
 	if err != nil {
 		return nil, err
+	}
+	if plain {
+		// h2c: an http:// request is never dialed through the TLS hooks.
+		dial := t.DialContext
+		if dial == nil {
+			dial = zeroDialer.DialContext
+		}
+		conn, err := dial(ctx, "tcp", addr)
+		if err != nil {
+			return nil, err
+		}
+		return t.newClientConn(conn, singleUse)
 	}
 	tconn, err := t.dialTLS(ctx)("tcp", addr, t.newTLSConfig(host))
 	if err != nil {
